@@ -9,6 +9,8 @@ use std::panic::{catch_unwind, AssertUnwindSafe};
 pub struct Ctx {
     pub store: AnnotationStore,
     pub style: IdStyle,
+    pub extra: Value,
+    pub dir: Option<std::path::PathBuf>,
 }
 
 pub fn bi<'a, T: Storable>(r: &Ref, style: IdStyle) -> BuildItem<'a, T>
@@ -83,6 +85,9 @@ fn rf(v: &Value) -> Ref {
 pub fn apply(ctx: &mut Ctx, op: &Op) -> (String, i64) {
     let style = ctx.style;
     let a = &op.a;
+    if op.ev == "RoundTrip" {
+        return crate::roundtrip::roundtrip(ctx, a);
+    }
     let store = &mut ctx.store;
     // argument decoding happens outside catch_unwind: a malformed input is a harness error, not a verdict
     let prepared_annotation = if op.ev == "Annotate" { Some(annotation_builder(a, style)) } else { None };
